@@ -184,25 +184,26 @@ static size_t file_size(const char * fn) { struct stat sb; return stat(fn, &sb) 
 static dr_pi_dag * roundtrip(const dr_pi_dag * G, const char * fn, const char * which, const char * extra, size_t * fszp) {
   char cls[100]; *fszp = 0;
 #define BAD(name, ...) do { snprintf(cls, sizeof cls, "roundtrip:%s:%s", which, name); found(cls, extra, __VA_ARGS__); } while (0)
-  static unsigned char buf[1 << 17];
-  int fd = open(fn, O_RDONLY); if (fd < 0) { BAD("no-file", "%s was not written", fn); return NULL; }
-  ssize_t r = read(fd, buf, sizeof buf); close(fd);
   size_t hdr = DAG_RECORDER_HEADER_LEN + 4 * sizeof(long), tsz = sizeof(dr_pi_dag_node) * G->n, esz = sizeof(dr_pi_dag_edge) * G->m;
-  size_t want = hdr + tsz + esz + G->S->sz;
-  if (r < 0 || (size_t)r != want) { BAD("file-size", "the file has %ld bytes, header + %ld nodes + %ld edges + string table need %zu", (long)r, G->n, G->m, want); return NULL; }
-  long h[4]; memcpy(h, buf + DAG_RECORDER_HEADER_LEN, sizeof h);
-  if (memcmp(buf, DAG_RECORDER_HEADER, DAG_RECORDER_HEADER_LEN)) BAD("header", "the file does not start with the format header");
-  if (h[0] != G->n || h[1] != G->m || h[2] != G->start_clock || h[3] != G->num_workers) BAD("header-fields", "file says n=%ld m=%ld start=%ld workers=%ld, dumped n=%ld m=%ld start=%ld workers=%ld", h[0], h[1], h[2], h[3], G->n, G->m, G->start_clock, G->num_workers);
-  if (memcmp(buf + hdr, G->T, tsz)) BAD("raw-nodes", "the node array in the file differs from the one dumped");
-  if (memcmp(buf + hdr + tsz, G->E, esz)) BAD("raw-edges", "the edge array in the file differs from the one dumped");
-  {
-    const dr_pi_string_table * fs = (const dr_pi_string_table *)(buf + hdr + tsz + esz); dr_pi_string_table tmp; memcpy(&tmp, fs, sizeof tmp);
-    size_t off = sizeof(dr_pi_string_table);
-    if (tmp.n != G->S->n || tmp.sz != G->S->sz || memcmp((const char *)fs + off, G->S->I, G->S->sz - off)) BAD("raw-strings", "the string table in the file differs from the one dumped");
-  }
+  size_t want = hdr + tsz + esz + G->S->sz, have = file_size(fn);
+  if (!have) { BAD("no-file", "%s was not written", fn); return NULL; }
+  if (have != want) { BAD("file-size", "the file has %zu bytes, header + %ld nodes + %ld edges + string table need %zu", have, G->n, G->m, want); return NULL; }
+  /* dr_read_dag maps the whole file privately and patches only the two pointer members of the string table: the
+     mapping is the file's content, and it is compared here byte by byte with what was to be dumped */
   dr_pi_dag * R = dr_read_dag(fn);
   if (!R) { BAD("read-fails", "dr_read_dag returns null for the file just written"); return NULL; }
   *fszp = want;
+  const unsigned char * buf = (const unsigned char *)R->T - hdr;
+  long h[4]; memcpy(h, buf + DAG_RECORDER_HEADER_LEN, sizeof h);
+  if (memcmp(buf, DAG_RECORDER_HEADER, DAG_RECORDER_HEADER_LEN)) BAD("header", "the file does not start with the format header");
+  if (h[0] != G->n || h[1] != G->m || h[2] != G->start_clock || h[3] != G->num_workers) BAD("header-fields", "file says n=%ld m=%ld start=%ld workers=%ld, dumped n=%ld m=%ld start=%ld workers=%ld", h[0], h[1], h[2], h[3], G->n, G->m, G->start_clock, G->num_workers);
+  if (h[0] != G->n || h[1] != G->m || R->n != G->n || R->m != G->m) { unread_dag(R, want); *fszp = 0; return NULL; }    /* E and S cannot be located */
+  if ((const unsigned char *)R->E != buf + hdr + tsz || (const unsigned char *)R->S != buf + hdr + tsz + esz) BAD("read-layout", "dr_read_dag places E or S at the wrong offset");
+  {
+    size_t off = sizeof(dr_pi_string_table);
+    if (R->S->n != G->S->n || R->S->sz != G->S->sz || memcmp((const char *)R->S + off, G->S->I, G->S->sz - off)) BAD("raw-strings", "the string table in the file differs from the one dumped");
+    if ((const char *)R->S->I != (const char *)R->S + off || R->S->C != (const char *)R->S + off + sizeof(long) * R->S->n) BAD("read-string-pointers", "dr_read_dag does not point I / C at the table that follows the header");
+  }
   if (R->n != G->n || R->m != G->m || R->start_clock != G->start_clock || R->num_workers != G->num_workers) BAD("read-header", "dr_read_dag: n=%ld m=%ld start=%ld workers=%ld, dumped n=%ld m=%ld start=%ld workers=%ld", R->n, R->m, R->start_clock, R->num_workers, G->n, G->m, G->start_clock, G->num_workers);
   else {
     if (memcmp(R->T, G->T, tsz)) BAD("read-nodes", "T read back differs from T dumped");
@@ -242,11 +243,17 @@ static void free_pi(dr_pi_dag * G) { free(G->T); free(G->E); free(G->S); }
 static const char * const AUX_NAMES[4] = { "cases whose DAG bytes equal an earlier setting's (not re-checked)", "distinct DAGs pushed through the file checks", "conversions", "converted DAGs written and read back" };
 static unsigned long long SEEN[128]; static int NSEEN;
 /* More than one file name: on the serial execution (W = 1) with the first timing, under every record-time setting
-   (which names survive which contraction).  The string table does not depend on who ran what. */
+   (which names survive which contraction).  The string table does not depend on who ran what.
+   Quick tier only: the second timing (the "one variation") is applied to the serial executions; every multi-worker
+   schedule runs under the first timing (C18 runs both timings everywhere; the thorough tier of C19 does, too). */
 static int component_skip(int nf, int oi) {
   (void)oi;
-  return nf > 1 && !(CASE.tmi == 0 && CASE.W == 1);
+  if (nf > 1 && !(CASE.tmi == 0 && CASE.W == 1)) return 1;
+  if (!TIER && CASE.tmi > 0 && CASE.W > 1) return 1;
+  return 0;
 }
+/* converted DAGs go through a file when they come from the uncontracted recording (quick: of a serial execution) */
+static int convert_through_file(void) { return CASE.oi == 0 && (TIER || CASE.W == 1); }
 
 static void component_case(void) {
   char cls[100], extra[80];
@@ -309,7 +316,7 @@ static void component_case(void) {
 	for (int k = 0; k < 4; k++) if (t2.nodes[k] != t1.nodes[k]) { snprintf(cls, sizeof cls, "shrink-totals:node:%s", NKN[k]); found(cls, extra, "%s nodes: %ld after conversion, %ld before", NKN[k], t2.nodes[k], t1.nodes[k]); }
 	for (int k = 0; k < EK_MAX; k++) if (t2.edges[k] != t1.edges[k]) { snprintf(cls, sizeof cls, "shrink-totals:edge:%s", EKN[k]); found(cls, extra, "%s edges (explicit + summarised): %ld after conversion, %ld before", EKN[k], t2.edges[k], t1.edges[k]); }
 	chronological(G2, "converted", extra);
-	if (CASE.oi == 0) {
+	if (convert_through_file()) {
 	  char fn2[260]; size_t fsz2; snprintf(fn2, sizeof fn2, "%s-conv", SCRATCH);
 	  co.dag_file_prefix = fn2; co.dag_file_yes = 1; dr_opts_init(&co);
 	  dr_gen_pi_dag(G2);
